@@ -105,6 +105,7 @@ type reported struct {
 }
 
 func NewReport(prop, tier, level string) *Report {
+	ExploreProperty = prop
 	return &Report{Property: prop, Tier: tier, Level: level, T0: time.Now(), Exhaustive: true, Extra: map[string]any{}, violations: map[string]*reported{}}
 }
 
@@ -232,6 +233,7 @@ type workItem struct {
 
 // Main is the entry point of a harness binary built on the explorer.
 func Main(cfg Config) {
+	ExploreProperty = cfg.Property
 	tier := flag.String("tier", envOr("VERIF_TIER", "quick"), "quick|thorough")
 	worker := flag.Bool("worker", false, "internal: worker mode")
 	replay := flag.String("replay", "", "replay file")
